@@ -14,7 +14,7 @@ class P(Prop):
             "its stable value; non-trivial = cyclic circuit with >=1 stable state")
     assumptions = ["set-iteration order inside the patched run is the model's ordBy(seed) family; the (plain-set) feedback "
                    "iteration order only affects node insertion order, which the canonical comparison ignores"]
-    budget = {"quick": (150, 120), "thorough": (2500, 2000)}
+    budget = {"quick": (450, 360), "thorough": (2500, 2000)}
 
     def gen_case(self):
         rng = self.rng
